@@ -5,9 +5,12 @@ import Nstd.Generated.XmlEscape
 
   The C++ code writes through a raw pointer `dest` into `String result`, whose capacity it
   manages itself: `String result(str.length() + N)`, and at every escape
-  `result.resize(dest - destStart); result.reserve(length + name.length + K + (end - i))`.
-  `N`, `K` and the rounding mask of `String::detach` are regenerated from the sources
-  (Nstd/Generated/XmlEscape.lean).  Here the buffer is `cap` (the block has `cap + 1` bytes, the
+  `result.resize(dest - destStart); result.reserve(<policy>)`.  The model is parametric in the
+  reserve policy `pol cap len nm rem` (size handed to `reserve`); the theorems hold for EVERY
+  policy that reserves at least `len + nm + 1 + rem` (= `&` + name + `;` + the remaining input).
+  `N`, the policy the code uses and the rounding mask of `String::detach` are regenerated from
+  the sources (Nstd/Generated/XmlEscape.lean); `genPolicy_ok` shows the generated policy meets
+  the bound — extra headroom keeps everything true, an under-reservation breaks that proof.  Here the buffer is `cap` (the block has `cap + 1` bytes, the
   last one for the terminator), `len` (`data->len` as of the last resize) and the bytes written
   so far (`dest - destStart = out.length`).  A write at or behind `cap` (terminator slot and
   beyond) is a fault — that is where the real code would later lose what it wrote, because
@@ -48,33 +51,49 @@ def EscBuf.reserve (b : EscBuf) (size : Nat) : EscBuf :=
   if size ≤ b.cap then b else { cap := roundCap size, len := b.len, out := b.out.take b.len }
 
 /-- the branch that replaces a byte by `&name;`; `rem` = `end - i` (source bytes left, incl. this one) -/
-def escEntity (nm : Bytes) (rem : Nat) (b : EscBuf) : Option EscBuf :=
+def escEntity (pol : Nat → Nat → Nat → Nat → Nat) (nm : Bytes) (rem : Nat) (b : EscBuf) : Option EscBuf :=
   match b.resize with
   | none => none
-  | some b1 => (b1.reserve (b1.len + nm.length + escReserveExtra + rem)).putAll (38 :: nm ++ [59])
+  | some b1 => (b1.reserve (pol b1.cap b1.len nm.length rem)).putAll (38 :: nm ++ [59])
 
 /-- one iteration of the loop of `escapeString` -/
-def escStep (attr : Bool) (c : UInt8) (rem : Nat) (b : EscBuf) : Option EscBuf :=
+def escStep (pol : Nat → Nat → Nat → Nat → Nat) (attr : Bool) (c : UInt8) (rem : Nat) (b : EscBuf) : Option EscBuf :=
   if (c ≥ 64 || c < 32) && !(attr && (c == 10 || c == 13)) then b.put c
   else
     match entityName c with
-    | some nm => escEntity nm rem b
+    | some nm => escEntity pol nm rem b
     | none =>
-      if c == 10 then escEntity [35, 49, 48] rem b
-      else if c == 13 then escEntity [35, 49, 51] rem b
+      if c == 10 then escEntity pol [35, 49, 48] rem b
+      else if c == 13 then escEntity pol [35, 49, 51] rem b
       else b.put c
 
-def escLoop (attr : Bool) : Bytes → EscBuf → Option EscBuf
+def escLoop (pol : Nat → Nat → Nat → Nat → Nat) (attr : Bool) : Bytes → EscBuf → Option EscBuf
   | [], b => some b
-  | c :: r, b => match escStep attr c (r.length + 1) b with
-    | some b' => escLoop attr r b'
+  | c :: r, b => match escStep pol attr c (r.length + 1) b with
+    | some b' => escLoop pol attr r b'
     | none => none
 
 /-- `escapeString(str, attributeValue)`: result bytes and final capacity, or a fault -/
-def escapeMem (attr : Bool) (s : Bytes) : Option EscBuf :=
-  match escLoop attr s ⟨s.length + escInitialSlack, 0, []⟩ with
+def escapeMemP (pol : Nat → Nat → Nat → Nat → Nat) (attr : Bool) (s : Bytes) : Option EscBuf :=
+  match escLoop pol attr s ⟨s.length + escInitialSlack, 0, []⟩ with
   | some b => b.resize
   | none => none
+
+/-- with the reserve policy of the current sources -/
+def escapeMem (attr : Bool) (s : Bytes) : Option EscBuf := escapeMemP escReservePolicy attr s
+
+/-- a policy reserves enough: `&` + name + `;` + the input bytes behind the current one -/
+def PolicyOK (pol : Nat → Nat → Nat → Nat → Nat) : Prop :=
+  ∀ cap len nm rem, len + nm + 1 + rem ≤ pol cap len nm rem
+
+/-- the policy translated from the current sources reserves enough -/
+theorem genPolicy_ok : PolicyOK escReservePolicy := by
+  intro cap len nm rem
+  unfold escReservePolicy
+  first
+    | omega
+    | (split <;> omega)
+    | (simp only []; split <;> omega)
 
 /-! ### no write behind the capacity, and the buffer holds `escape attr s` -/
 
@@ -93,20 +112,20 @@ theorem putAll_ok : ∀ (l : Bytes) (b : EscBuf), b.out.length + l.length ≤ b.
     rw [ih _ (by simp; omega)]
     simp
 
-theorem escReserveExtra_pos : 1 ≤ escReserveExtra := by decide
-
-theorem escEntity_ok (nm : Bytes) (r : Nat) (b : EscBuf) (h : b.out.length + (r + 1) ≤ b.cap) :
-    ∃ b', escEntity nm (r + 1) b = some b' ∧ b'.out = b.out ++ (38 :: nm ++ [59]) ∧ b'.out.length + r ≤ b'.cap := by
+theorem escEntity_ok {pol : Nat → Nat → Nat → Nat → Nat} (hpol : PolicyOK pol) (nm : Bytes) (r : Nat) (b : EscBuf)
+    (h : b.out.length + (r + 1) ≤ b.cap) :
+    ∃ b', escEntity pol nm (r + 1) b = some b' ∧ b'.out = b.out ++ (38 :: nm ++ [59]) ∧ b'.out.length + r ≤ b'.cap := by
   have hle : b.out.length ≤ b.cap := by omega
-  have hK := escReserveExtra_pos
+  have hK := hpol b.cap b.out.length nm.length (r + 1)
   simp only [escEntity, EscBuf.resize, if_pos hle]
   -- the buffer after reserve
-  have key : ∃ b2 : EscBuf, EscBuf.reserve { b with len := b.out.length } (b.out.length + nm.length + escReserveExtra + (r + 1)) = b2 ∧
-      b2.out = b.out ∧ b.out.length + nm.length + escReserveExtra + (r + 1) ≤ b2.cap := by
+  generalize hsz : pol b.cap b.out.length nm.length (r + 1) = sz at hK
+  have key : ∃ b2 : EscBuf, EscBuf.reserve { b with len := b.out.length } sz = b2 ∧
+      b2.out = b.out ∧ sz ≤ b2.cap := by
     simp only [EscBuf.reserve]
-    have h1 : ¬ (b.out.length + nm.length + escReserveExtra + (r + 1) < b.out.length) := by omega
+    have h1 : ¬ (sz < b.out.length) := by omega
     simp only [if_neg h1]
-    by_cases hc : b.out.length + nm.length + escReserveExtra + (r + 1) ≤ b.cap
+    by_cases hc : sz ≤ b.cap
     · exact ⟨{ b with len := b.out.length }, by rw [if_pos hc], rfl, hc⟩
     · exact ⟨_, by rw [if_neg hc], by simp, le_roundCap _⟩
   obtain ⟨b2, hb2, hout, hcap⟩ := key
@@ -116,8 +135,9 @@ theorem escEntity_ok (nm : Bytes) (r : Nat) (b : EscBuf) (h : b.out.length + (r 
   simp [hout]
   omega
 
-theorem escStep_ok (attr : Bool) (c : UInt8) (r : Nat) (b : EscBuf) (h : b.out.length + (r + 1) ≤ b.cap) :
-    ∃ b', escStep attr c (r + 1) b = some b' ∧ b'.out = b.out ++ escapeByte attr c ∧ b'.out.length + r ≤ b'.cap := by
+theorem escStep_ok {pol : Nat → Nat → Nat → Nat → Nat} (hpol : PolicyOK pol) (attr : Bool) (c : UInt8) (r : Nat) (b : EscBuf)
+    (h : b.out.length + (r + 1) ≤ b.cap) :
+    ∃ b', escStep pol attr c (r + 1) b = some b' ∧ b'.out = b.out ++ escapeByte attr c ∧ b'.out.length + r ≤ b'.cap := by
   have hput : ∃ b', b.put c = some b' ∧ b'.out = b.out ++ [c] ∧ b'.out.length + r ≤ b'.cap := by
     have hlt : b.out.length < b.cap := by omega
     exact ⟨{ b with out := b.out ++ [c] }, by simp [EscBuf.put, hlt], rfl, by simp; omega⟩
@@ -126,24 +146,25 @@ theorem escStep_ok (attr : Bool) (c : UInt8) (r : Nat) (b : EscBuf) (h : b.out.l
   · rw [if_pos h1, if_pos h1]; exact hput
   · rw [if_neg h1, if_neg h1]
     cases hn : entityName c with
-    | some nm => exact escEntity_ok nm r b h
+    | some nm => exact escEntity_ok hpol nm r b h
     | none =>
       simp only
       by_cases h10 : (c == 10) = true
-      · rw [if_pos h10, if_pos h10]; exact escEntity_ok _ r b h
+      · rw [if_pos h10, if_pos h10]; exact escEntity_ok hpol _ r b h
       · rw [if_neg h10, if_neg h10]
         by_cases h13 : (c == 13) = true
-        · rw [if_pos h13, if_pos h13]; exact escEntity_ok _ r b h
+        · rw [if_pos h13, if_pos h13]; exact escEntity_ok hpol _ r b h
         · rw [if_neg h13, if_neg h13]; exact hput
 
-theorem escLoop_ok (attr : Bool) : ∀ (s : Bytes) (b : EscBuf), b.out.length + s.length ≤ b.cap →
-    ∃ b', escLoop attr s b = some b' ∧ b'.out = b.out ++ escape attr s ∧ b'.out.length ≤ b'.cap := by
+theorem escLoop_ok {pol : Nat → Nat → Nat → Nat → Nat} (hpol : PolicyOK pol) (attr : Bool) :
+    ∀ (s : Bytes) (b : EscBuf), b.out.length + s.length ≤ b.cap →
+    ∃ b', escLoop pol attr s b = some b' ∧ b'.out = b.out ++ escape attr s ∧ b'.out.length ≤ b'.cap := by
   intro s
   induction s with
   | nil => intro b h; exact ⟨b, rfl, by simp [escape], by simpa using h⟩
   | cons c r ih =>
     intro b h
-    obtain ⟨b1, h1, h2, h3⟩ := escStep_ok attr c r.length b (by simpa using h)
+    obtain ⟨b1, h1, h2, h3⟩ := escStep_ok hpol attr c r.length b (by simpa using h)
     obtain ⟨b2, g1, g2, g3⟩ := ih b1 h3
     refine ⟨b2, by simp only [escLoop, h1, g1], ?_, g3⟩
     rw [g2, h2]; simp [escape]
